@@ -362,6 +362,7 @@ func C03(c *core.Ctx) {
 	p := c.P
 	defer c03SizedAsWritten(c)
 	defer c03OneOctetThreshold(c)
+	defer c03NameReserveNotCapped(c)
 	defer c03ReaderBase(c)
 	defer c03EmptyNameAccepted(c)
 
